@@ -193,7 +193,8 @@ def lock_typestate(ctx: Ctx, rule: str) -> None:
         flags = ast.unparse(lock_calls[0].args[1]) if lock_calls and len(lock_calls[0].args) > 1 else ""
         ok_try = (len(lock_calls) == 1 and ast.unparse(lock_calls[0].args[0]) == fd and "fcntl.LOCK_EX" in flags and "fcntl.LOCK_NB" in flags
                   and len(t.body) == 1)
-        ok_else = len(t.orelse) == 1 and isinstance(t.orelse[0], ast.Break)
+        # success leaves the loop (a flag may be set on the way; nothing is called)
+        ok_else = bool(t.orelse) and isinstance(t.orelse[-1], ast.Break) and not calls_in(ast.Module(body=t.orelse, type_ignores=[]))
         handlers_ok = len(t.handlers) >= 1
         for h in t.handlers:
             hn = ast.unparse(h.type) if h.type else ""
@@ -213,26 +214,53 @@ def lock_typestate(ctx: Ctx, rule: str) -> None:
                    "" if ok_try and ok_else and handlers_ok else "the loop can be left (critical section entered) without a successful exclusive lockf")
     else:
         ctx.record(rule + "t", "TYPE", fref, "try: lockf / except / else: break", False, {}, "acquisition try statement not found")
-    other_breaks = [b for b in ast.walk(loop) if isinstance(b, ast.Break) and not (tries and any(b is x for x in tries[0].orelse))]
+    other_breaks = [b for b in ast.walk(loop) if isinstance(b, ast.Break) and not (tries and any(b is x for x in ast.walk(ast.Module(body=tries[0].orelse, type_ignores=[]))))]
     sleeps = [c for c in calls_in(loop) if dotted(c.func) == "time.sleep"]
     ok_sl = len(sleeps) == 1 and not other_breaks
     ctx.record(rule + "s", "COUNT", fref, "one time.sleep per failed attempt; the only break is the success break", ok_sl, {},
                "" if ok_sl else "the acquisition loop has another exit or no longer waits between attempts")
-    ok_exh = len(loop.orelse) >= 1 and isinstance(loop.orelse[-1], ast.Raise) and "RuntimeError" in ast.unparse(loop.orelse[-1])
-    ctx.record(rule + "e", "TYPE", fref, "loop exhaustion (for-else) raises RuntimeError: never proceeds unlocked", ok_exh, {},
-               "" if ok_exh else "after the timeout the critical section is entered without the lock")
-    after = w.body[w.body.index(loop) + 1:]
-    ok_y = len(after) == 1 and isinstance(after[0], ast.Try) and len(after[0].body) == 1 and isinstance(after[0].body[0], ast.Expr) \
-        and isinstance(after[0].body[0].value, ast.Yield) and not after[0].handlers
+    # typestate over every path of the function: the locked `yield` is reached only with the lock held
+    skip_if = [i_ for i_ in fn.node.body if isinstance(i_, ast.If) and ast.unparse(i_.test) == "SKIP_LOCKS"]
+    bypass = {id(x) for i_ in skip_if for x in ast.walk(i_)}
+
+    def is_lock(c, how):
+        return isinstance(c, ast.Call) and dotted(c.func) == "fcntl.lockf" and len(c.args) == 2 and ast.unparse(c.args[0]) == fd and (
+            ("fcntl.LOCK_EX" in ast.unparse(c.args[1]) and "fcntl.LOCK_NB" in ast.unparse(c.args[1])) if how == "ex" else ast.unparse(c.args[1]) == "fcntl.LOCK_UN")
+
+    views = function_views(ctx, fref, None)
+    n_locked, bad_path, no_unlock = 0, None, None
+    for v in views:
+        held = False
+        for k, st in enumerate(v.steps):
+            node = st.node
+            if st.kind == "stmt" and isinstance(node, ast.Expr) and is_lock(node.value, "ex"):
+                held = True
+            elif st.kind == "excin" and any(is_lock(c, "ex") for c in calls_in(node)):
+                held = False
+            elif st.kind == "stmt" and isinstance(node, ast.Expr) and is_lock(node.value, "un"):
+                held = False
+            elif st.kind == "stmt" and isinstance(node, ast.Expr) and isinstance(node.value, ast.Yield) and id(node) not in bypass:
+                n_locked += 1
+                if not held and bad_path is None:
+                    bad_path = v
+                # the normal continuation releases the lock
+                if not any(s2.kind == "stmt" and isinstance(s2.node, ast.Expr) and is_lock(s2.node.value, "un") for s2 in v.steps[k + 1:]) and no_unlock is None:
+                    no_unlock = v
+    ok_t2 = n_locked >= 1 and bad_path is None
+    ctx.record(rule + "e", "TYPE", fref, "every path that reaches the locked yield has a successful exclusive lockf before it (exhausting the timeout never proceeds unlocked)", ok_t2,
+               {"paths_to_yield": n_locked, **({"path": bad_path.path.describe()[-12:]} if bad_path else {})},
+               "" if ok_t2 else "after the timeout the critical section is entered without the lock" if n_locked else "no path reaches the locked yield")
+    ytries = [t_ for t_ in ast.walk(w) if isinstance(t_, ast.Try) and any(isinstance(x, ast.Yield) for b_ in t_.body for x in ast.walk(b_))]
+    ok_y = len(ytries) == 1 and not ytries[0].handlers and bool(ytries[0].finalbody)
     ok_f = False
     if ok_y:
-        fin = after[0].finalbody
-        un = [c for c in calls_in(ast.Module(body=fin, type_ignores=[])) if dotted(c.func) == "fcntl.lockf"]
-        ok_f = len(un) == 1 and ast.unparse(un[0].args[0]) == fd and ast.unparse(un[0].args[1]) == "fcntl.LOCK_UN"
+        fin = ytries[0].finalbody
+        un = [c for c in calls_in(ast.Module(body=fin, type_ignores=[])) if is_lock(c, "un")]
+        ok_f = len(un) == 1
         # the lock file must not be removed on release (a waiter holding the old inode would lock a different file)
         removed = [c for c in calls_in(ast.Module(body=fin, type_ignores=[])) if dotted(c.func) in FILE_MUTATORS]
-        ok_f = ok_f and not removed
-    ctx.record(rule + "y", "PAIR", fref, "try: yield fd / finally: fcntl.lockf(fd, LOCK_UN) — directly after the loop, nothing else in finally", ok_y and ok_f, {},
+        ok_f = ok_f and not removed and no_unlock is None
+    ctx.record(rule + "y", "PAIR", fref, "the locked yield sits in try/finally: fcntl.lockf(fd, LOCK_UN) on every exit, the lock file is not touched on release", ok_y and ok_f, {},
                "" if ok_y and ok_f else "the critical section is not bracketed by acquisition and a finally-unlock (or the lock file is touched on release)")
     yields = [y for y in ast.walk(fn.node) if isinstance(y, (ast.Yield, ast.YieldFrom))]
     skip = [i for i in fn.node.body if isinstance(i, ast.If) and ast.unparse(i.test) == "SKIP_LOCKS"]
